@@ -62,14 +62,13 @@ theorem C17_wrap_moves_no_line (s : List UInt8) :
     srcOf (wrapSegs (s.length + 1) s) = s ∧ dstOf (wrapSegs (s.length + 1) s) = wrap s ∧ LineOk (wrapSegs (s.length + 1) s) :=
   ⟨wrapSegs_src _ s, rfl, wrapSegs_ok _ s⟩
 
-/-- the same for the ampersand pass and for every regenerated `strings.ReplaceAll` step of `preprocessHTMLEntities` -/
+/-- the same for the ampersand pass and for every regenerated `replaceInMarkup` step of `preprocessHTMLEntities` -/
 theorem C17_entities_move_no_line (s : List UInt8) :
-    (srcOf (escSegs entTable false 0 s) = s ∧ dstOf (escSegs entTable false 0 s) = escapeAmp s ∧ LineOk (escSegs entTable false 0 s)) ∧
+    (srcOf (escSegs entTable false 0 0 0 s) = s ∧ dstOf (escSegs entTable false 0 0 0 s) = escapeAmp s ∧ LineOk (escSegs entTable false 0 0 0 s)) ∧
     ∀ st ∈ Gomjml.Gen.Parser.entityStepsB,
-      srcOf (replSegs st.1 st.2 s) = s ∧ dstOf (replSegs st.1 st.2 s) = replaceAll st.1 st.2 s ∧ LineOk (replSegs st.1 st.2 s) :=
-  ⟨⟨escSegs_src _ s _ _, escSegs_dst _ s _ _, escSegs_ok _ s _ _⟩,
-   fun st hst => ⟨replSegs_src _ _ _ s (Nat.le_refl _), replSegs_dst _ _ _ s (Nat.le_refl _),
-     replSegs_ok _ _ (steps_no_lf st hst) _ s (Nat.le_refl _)⟩⟩
+      srcOf (replSegsM st.1 st.2 s) = s ∧ dstOf (replSegsM st.1 st.2 s) = replaceAllM st.1 st.2 s ∧ LineOk (replSegsM st.1 st.2 s) :=
+  ⟨⟨escSegs_src _ s _ _ _ _, escSegs_dst _ s _ _ _ _, escSegs_ok _ s _ _ _ _⟩,
+   fun st hst => replSegsM_all _ _ (steps_no_lf st hst) _ s (Nat.le_refl _)⟩
 
 /-- **the reported line is the line of the same place in the input.**  Take any input `s` with a root element (`p` in front
     of it), a place `m` bytes behind the start of the root, and the offset `k` of the same place in the text the decoder reads
